@@ -187,6 +187,16 @@ fn check_sites(rep: &Report, prog: &Program, opts: RenderOpts, layout: Layout, l
     rep.transition(1);
     rep.eval(2);
     let replay = |what: &str| json!({"kind": "debug_sites", "program": text, "what": what, "label": label});
+    // a twin with the same layout (every call site at the same line and column, of the same kind) but other call
+    // texts is compiled with debug symbols on this thread immediately before the program under test: nothing of it
+    // may show up in the symbols of the program under test
+    let twin = text.replace("jet::eq_8", "jet::le_8").replace("jet::xor_8", "jet::and_8");
+    if twin != text {
+        rep.eval(1);
+        if drive::build(&twin, simfony::Arguments::default(), true).is_ok() {
+            rep.class("same-layout-twin-compiled-first");
+        }
+    }
     let built = match drive::build(&text, simfony::Arguments::default(), true) {
         Ok(b) => b,
         Err(o) => {
